@@ -212,6 +212,13 @@ def classify(res, meta):
             for c in clauses:
                 if c.get('fn') == fn[0] and c['kind'] == 'ensures':
                     tags.update(c.get('tags') or [])
+        rend = d.get('rendered', '')
+        if 'verif_panic_outside' in rend:
+            msg = 'an assert!/panic! is reachable although the documented domain holds at entry (no_panic_when)'
+            hit = [c for c in hit if c['kind'] != 'assumption'] or [{'kind': 'no_panic_when', 'text': 'intended panic must be unreachable inside the documented domain', 'tags': sorted(tags)}]
+        elif 'verif_debug_panic' in rend:
+            msg = 'a debug_assert!/invariant! is not proved (it may fail, or be a false optimizer assumption in unsafe builds)'
+            hit = [c for c in hit if c['kind'] != 'assumption'] or [{'kind': 'debug-assertion', 'text': 'debug_assert!/invariant! obligation (rule R1)', 'tags': sorted(tags)}]
         failures.append({'message': msg, 'function': where, 'line': pl, 'tags': sorted(tags), 'kind': kind,
                          'clauses': [{'kind': c['kind'], 'text': c['text'][:300], 'tags': c.get('tags')} for c in hit],
                          'rendered': d['rendered']})
